@@ -197,6 +197,12 @@ fn encode_improper_list_impl<'a>(
     tail: &'a OwnedTerm,
     cache: Option<&HashMap<&'a Atom, u8>>,
 ) -> Result<(), EncodeError> {
+    // a list with no cells is just its tail; LIST_EXT with length 0 would not re-encode
+    // to the same bytes after a decode
+    if elements.is_empty() {
+        return encode_term_impl(buf, tail, cache);
+    }
+
     let len = u32::try_from(elements.len()).map_err(|_| EncodeError::ListTooLarge {
         size: elements.len(),
     })?;
